@@ -462,6 +462,9 @@ func (m *Model) Pull(s *MSub, max int, resp []RecvMsg, t0, t1 time.Time) *Violat
 							score = 2
 							if !x.Fuzzy {
 								score = 3
+								if x.mustAlive(t1) && x.mustDue(t0) {
+									score = 4 // definitely eligible beats "within a boundary zone"
+								}
 							}
 						}
 					}
